@@ -1009,11 +1009,10 @@ class LogixDriver(CIPDriver):
             current_group.append(req)
             current_response_size += resp_size
 
-        # test if the first list is empty
-        if grouped_requests[0]:
-            multi_requests = [
-                MultiServiceRequestPacket(self._sequence, group) for group in grouped_requests
-            ]
+        # the first group stays empty when the first request alone exceeds the budget
+        multi_requests = [
+            MultiServiceRequestPacket(self._sequence, group) for group in grouped_requests if group
+        ]
 
         return multi_requests + fragmented_requests
 
